@@ -36,6 +36,13 @@ pub enum St {
     EmptyValue,
     OneChar,
     PrefixCut,
+    /// query / header: the value is present and empty (`k=`, an empty header value) — decodable
+    /// exactly for strings
+    EmptyText,
+    /// query: the key alone (`?k`), which form decoding reads as an empty value
+    BareKey,
+    /// query collections: an empty value between two valid ones (`k=v&k=&k=v`)
+    EmptyAmongValues,
 }
 
 #[derive(Clone)]
@@ -56,6 +63,8 @@ pub struct ArgD {
     pub bad: String,
     /// further texts that look like the type but are outside its grammar
     pub bad_alts: Vec<&'static str>,
+    /// further texts inside the type's grammar (boundary / unusual spellings)
+    pub valid_alts: Vec<&'static str>,
 }
 
 #[derive(Clone)]
@@ -105,10 +114,21 @@ fn arg(i: usize, kind: Kind, declared: &'static str, ty: &'static str, safe: boo
         "safelong" => vec!["9007199254740992", "-9007199254740992", "1.0", "9e15"],
         "rid" => vec!["ri.a.b.c", "ri.A.b.c.d", "ri.a.b.c.", "rid.a.b.c.d"],
         "enum" => vec!["green", "GREEN-1", "GRE EN"],
-        "token" => vec!["=abc", "a b", "a,b"],
+        "token" => vec!["=abc", "a b", "a,b", "abc=def", "YWJj=ZA=", "abc==x", "=", "a=b=", "user=admin"],
         _ => vec![],
     };
-    ArgD { kind, declared, safe, required, single, typed, valid, taint, bad, bad_alts }
+    let valid_alts: Vec<&'static str> = match ty {
+        "token" => vec!["YWJj==", "a+b/c~._-", "A", "0=", "++++/w=="],
+        "datetime" => vec!["2017-01-02T03:04:05.123456789Z", "2017-01-02T03:04:05+01:00", "0000-01-01T00:00:00Z", "9999-12-31T23:59:59.999999999Z"],
+        "integer" => vec!["-2147483648", "2147483647", "0", "-0"],
+        "double" => vec!["NaN", "-Infinity", "Infinity", "1e3", "-0.0", "5e-324"],
+        "boolean" => vec!["false"],
+        "safelong" => vec!["-9007199254740991", "9007199254740991", "0"],
+        "rid" => vec!["ri.a..c.D_-.", "ri.a-1.0b.c-2.d.e"],
+        "string" => vec!["", " ", "a b", "%", "+", "a=b&c", "é"],
+        _ => vec![],
+    };
+    ArgD { kind, declared, safe, required, single, typed, valid, taint, bad, bad_alts, valid_alts }
 }
 
 pub fn endpoints() -> Vec<EndpointD> {
@@ -301,9 +321,15 @@ pub fn states_of(a: &ArgD) -> Vec<St> {
             if a.typed {
                 v.push(St::Unparsable);
             }
+            v.push(St::EmptyText);
+            v.push(St::BareKey);
+            if !a.single {
+                v.push(St::EmptyAmongValues);
+            }
         }
         Kind::Header(_) => {
             v.push(St::Absent);
+            v.push(St::EmptyText);
             if a.single {
                 v.push(St::Repeated);
             }
@@ -327,6 +353,8 @@ pub fn corrupts(a: &ArgD, s: St) -> bool {
     match s {
         St::Valid => false,
         St::Absent => a.required,
+        // the empty text is a string (and nothing else)
+        St::EmptyText | St::BareKey | St::EmptyAmongValues => a.typed,
         _ => true,
     }
 }
@@ -370,6 +398,13 @@ pub fn build(e: &EndpointD, states: &[St]) -> Built {
                     query.push(format!("{}={}", k, a.valid));
                 }
                 St::Unparsable => query.push(format!("{}={}", k, a.bad)),
+                St::EmptyText => query.push(format!("{}=", k)),
+                St::BareKey => query.push(k.to_string()),
+                St::EmptyAmongValues => {
+                    query.push(format!("{}={}", k, a.valid));
+                    query.push(format!("{}=", k));
+                    query.push(format!("{}={}", k, a.valid));
+                }
                 _ => query.push(format!("{}={}", k, a.valid)),
             },
             Kind::Header(h) => {
@@ -382,6 +417,9 @@ pub fn build(e: &EndpointD, states: &[St]) -> Built {
                     }
                     St::Unparsable => {
                         headers.append(name, HeaderValue::from_str(&a.bad).unwrap());
+                    }
+                    St::EmptyText => {
+                        headers.append(name, HeaderValue::from_static(""));
                     }
                     St::InvalidText => {
                         let mut b = a.taint.clone().into_bytes();
